@@ -93,6 +93,23 @@ def vectors(ctx):
                 if "payload" not in jws:
                     continue
                 ops.append(("jws.ver", {"jws": jws, "jwk": jwk, "all": kf.endswith("jwkset"), "_expect": True, "_why": "RFC vector " + os.path.basename(f)}))
+    # compact vectors (RFC 7515 A.1 - A.4 exist only in this form; A.1's protected header is NOT what jose itself would
+    # write: "typ" before "alg", CR LF and a space inside) as the flattened objects they spell
+    for f in sorted(glob.glob(os.path.join(d, "*.jwsc"))):
+        base = f.rsplit(".", 1)[0]
+        parts = open(f).read().strip().split(".")
+        if len(parts) != 3 or not os.path.exists(base + ".jwk"):
+            continue
+        try:
+            jwk = json.load(open(base + ".jwk"))
+        except Exception:
+            continue
+        if not parts[1] and os.path.exists(base + ".payl"):
+            parts[1] = G.b64u(open(base + ".payl", "rb").read())
+        jws = {"protected": parts[0], "payload": parts[1], "signature": parts[2]}
+        ops.append(("jws.ver", {"jws": jws, "jwk": jwk, "all": False, "_expect": True, "_why": "RFC vector " + os.path.basename(f) + " as a flattened object"}))
+        ops.append(("jws.ver", {"jws": {"payload": parts[1], "signatures": [{"protected": parts[0], "signature": parts[2]}]}, "jwk": [jwk], "all": True, "_expect": True,
+                                "_why": "RFC vector " + os.path.basename(f) + " as a general object"}))
     return ops
 
 
